@@ -54,6 +54,7 @@ for d in sorted(sum([glob.glob(S + "/C??/[abcd]") for S in SRCS], [])):
             "demo_patched_exit": valid["demo_patched"]["rc"],
             "suite_patched": [{"pkg": s["pkg"], "runs": len(s["runs"]), "passed": s["passed"]} for s in valid.get("suite_patched", [])],
         },
+        "repo_commits_it_was_run_against": sorted(set(h.get("repo_commit", "760753d") for h in hist)),
         "checks_run_against_it": det,
         "detection_history": dh,
         "detected_by": sorted(p for p, c in det.items() if c["exit"] == 1 and c["violations"]),
